@@ -19,6 +19,10 @@ def dirname (p : Bytes) : Bytes :=
   let head := p.take (p.length - (basename p).length)
   if head ≠ [] ∧ ¬ head.all (· = slash) then rstripSlash head else head
 
+/-- posixpath.split: `(head, tail)`, the tail is the part after the last '/', the head what is
+    before it with its trailing slashes stripped (unless it consists of slashes only) -/
+def psplit (p : Bytes) : Bytes × Bytes := (dirname p, basename p)
+
 /-- posixpath.join(a, b) -/
 def pjoin (a c : Bytes) : Bytes :=
   if startsWith c [slash] then c
@@ -52,6 +56,9 @@ def isAbs (p : Bytes) : Bool := startsWith p [slash]
 
 /-- posixpath.abspath with the process cwd given as a string -/
 def abspath (cwd p : Bytes) : Bytes := normpath (if isAbs p then p else pjoin cwd p)
+
+/-- some '/'-separated component of the string is `.` or `..` -/
+def hasDotComp (p : Bytes) : Bool := (splitOn slash p).any fun c => c = [dot] || c = dotdot
 
 /-- `should_skipped_by_specs` -/
 def isDotEntry (p : Bytes) : Bool := basename p = [dot] ∨ basename p = dotdot
